@@ -57,10 +57,49 @@ class Frag:
         return v
 
 
+def replay_library(w):
+    """whole programs for the library routines: write(int) at every stack size around the exact fit (a live array must survive, or the run must end
+    in stack_overflow with no output), write(bool) after the stack below the argument was dirtied, write(string) / write(byte[]) at this word size"""
+    from hidv.sphinx import svm
+    from hidc.errors import CompilerError
+    obs = []
+    M = 1 << (8 * w)
+    vals = [0, 7, -7, 12345, -12345, M // 2 - 1, -(M // 2)]
+    src = ('empty @is_you(int v, int n) { byte guard[n]; for (int k = 0; k < n; k += 1) { guard[k] = \'#\'; } write(v); write(" "); write(guard); }')
+    try:
+        for v in vals:
+            for S in range(2, 16):
+                for n in (1, 3, 8):
+                    res, vm = svm.run_hid(src, args=[str(v), str(n)], word_size=w, stack_size=S)
+                    good = (res == 'error' and vm.flags[:1] == ['stack_overflow'] and vm.out == b'') or (res == 'win' and vm.out == f'{v} '.encode() + b'#' * n)
+                    if not good:
+                        obs.append({'program': src, 'arguments': [v, n], 'stack_size_words': S, 'end': res, 'flags': vm.flags, 'printed': vm.out.decode('latin1'),
+                                    'documented': f'"{v} {"#" * n}" and win, or stack_overflow with no output'})
+                        break
+                if obs: break
+            if obs: break
+        src2 = 'empty @is_you(int v) { write(v); write(" "); write(v < 0); write(v > 0); write(v == v); write(" "); write("s"); bool t = v != v; writeln(t); writeln(v is byte); }'
+        for v in (31415, -1, 0, 256):
+            res, vm = svm.run_hid(src2, args=[str(v)], word_size=w)
+            want = f'{v} {"true" if v < 0 else "false"}{"true" if v > 0 else "false"}true sfalse\n'.encode() + bytes([v % 256]) + b'\n'
+            if res != 'win' or vm.out != want:
+                obs.append({'program': src2, 'argument': v, 'end': res, 'printed': vm.out.decode('latin1'), 'documented': want.decode('latin1')})
+    except (CompilerError, svm.VMError, Exception) as e:
+        return {'reproduced': None, 'how': f'witness programs did not run: {e!r}'}
+    return {'reproduced': bool(obs), 'how': 'hidc-compiled programs on hidv.sphinx.svm', 'observed': obs[:3] or 'the witness programs behave as documented'}
+
+
 def result(name, ok, t0, det, undecided=None):
     d = {'functions': FN}; d.update(det)
     if undecided:
         return Result(name, UNDECIDED, 'sphinxsem+z3', time.time() - t0, (), {**d, 'message': undecided})
+    if not ok and 'replay' not in d:
+        import re as _re
+        m = _re.search(r'/w(\d+)/', name)
+        try:
+            d['replay'] = replay_library(int(m.group(1)) if m else 2)
+        except Exception as e:
+            d['replay'] = {'reproduced': None, 'how': f'no replay: {e!r}'}
     return Result(name, DISCHARGED if ok else FAILED, 'sphinxsem+z3', time.time() - t0, (), d)
 
 
